@@ -1172,7 +1172,7 @@ OPNMIDI_EXPORT int opn2_playFormat(OPN2_MIDIPlayer *device, int sampleCount,
     //ssize_t n_periodCountPhys = n_periodCountStereo * 2;
     int left = sampleCount;
     bool hasSkipped = setup.tick_skip_samples_delay > 0;
-    int antiFreezeCounter = 10000; // Limit of event rows handled in a row without giving any audio
+    int antiFreezeCounter = 1000; // Limit of rounds of event handling in a row that give no audio
 
     while(left > 0)
     {
@@ -1241,13 +1241,18 @@ OPNMIDI_EXPORT int opn2_playFormat(OPN2_MIDIPlayer *device, int sampleCount,
             setup.delay = player->Tick(eat_delay, setup.mindelay);
 
             if(n_periodCountStereo > 0)
-                antiFreezeCounter = 10000;
+            {
+                // Every sample given out allows a few more rounds without audio (rows less than a sample apart)
+                antiFreezeCounter += static_cast<int>(n_periodCountStereo) * 8;
+                if(antiFreezeCounter > 1000)
+                    antiFreezeCounter = 1000;
+            }
             else if(--antiFreezeCounter <= 0)
             {
                 /* An absurd tempo leaves no time between the events of a looping song:
                  * give the audio one second rather than handle events for ever */
                 setup.delay = 1.0;
-                antiFreezeCounter = 10000;
+                antiFreezeCounter = 1000;
             }
         }
     }
